@@ -294,9 +294,7 @@ class P(core.Prop):
         if ch and len(ch[-1]) > 2:
             yield dict(case, chunks=ch[:-1] + [ch[-1][:-2]])
 
-    finding_preds = {
-        'connect_domain_success': lambda c, o: is_domain_success(c),
-    }
+    finding_preds = {}      # C05-F1 and C05-F2 are repaired in /repo; their witnesses stay in the corpus
 
 
 PROP = P()
